@@ -146,8 +146,13 @@ def worker(args):
     if not hasattr(pkgconfig, '_verif_orig_call'):
         pkgconfig._verif_orig_call = pkgconfig.call      # workers are reused: keep the real function
 
-    if kind == 'flags':
-        # shape: tuple of packages, each (cflags token lengths, libs token lengths)
+    if kind in ('flags', 'flagsrep'):
+        # shape: tuple of packages, each (cflags token lengths, libs token lengths);
+        # flagsrep: (packages, order) -- the list handed to flags_from_pkgconfig names packages repeatedly
+        order = None
+        if kind == 'flagsrep':
+            shape, order = shape
+
         def h(ex):
             table = {}
             names = []
@@ -164,6 +169,8 @@ def worker(args):
                 c, l = table[libname]
                 return _Out(c if flag == '--cflags' else l)
             pkgconfig.call = fake_call
+            if order is not None:
+                names = [names[k] for k in order]
             got = pkgconfig.flags_from_pkgconfig(list(names))
             want = None
             for n in names:
@@ -267,6 +274,10 @@ def run(chk):
     for a in two:
         for b in two:
             cases.append(P + ('flags', (((a,), (b,)), ((b,), (a,)))))
+    # package lists that name a package more than once (the result is the concatenation in call order, repeats included)
+    for order in [(0, 0), (0, 1, 0), (0, 0, 0), (0, 1, 1), (1, 0, 0, 1)] + ([] if quick else [(0, 1, 2, 0), (0, 1, 0, 1), (2, 1, 0, 2, 1)]):
+        for a in (2, 3):
+            cases.append(P + ('flagsrep', ((((a,), (2,)), ((3,), (a,)), ((2,), (2,))), order)))
     if not quick:
         for a, b, c, d in itertools.product([2, 3], repeat=4):
             cases.append(P + ('flags', (((a, b), (c,)), ((d,), (a, b)))))
@@ -274,7 +285,7 @@ def run(chk):
         cases.append(P + ('call', n))
     chk.bounds = {'cflags tokens': '<= 2 per package', 'libs tokens': '<= %d per package' % (1 if quick else 2),
                   'characters per token': '<= %d, any ASCII code point' % ML, 'macro token length': '<= %d' % (6 if quick else 8),
-                  'packages': '<= 2', 'call(): decoded output': '<= %d characters; exit status any int; decode may fail' % (3 if quick else 5)}
+                  'packages': '<= 2 distinct shapes (3 in lists with repeated names, up to %d entries)' % (4 if quick else 5), 'call(): decoded output': '<= %d characters; exit status any int; decode may fail' % (3 if quick else 5)}
     chk.outside = ['str.split() itself (tokens are delivered by a stub honouring its contract)',
                    'non-ASCII token characters', 'the real pkg-config program and subprocess.Popen',
                    'more tokens/packages than the bound']
